@@ -23,13 +23,18 @@ Theorem C11_plaintext_roundtrip : forall c os pl pt pm seqno, plaintext_of c os 
 Proof. exact plaintext_roundtrip. Qed.
 Print Assumptions C11_plaintext_roundtrip.
 
-(* a request protected by cA and unprotected by the matching context cB while its Partial IV is unseen in cB's replay window:
-   original code, class-E options (inner_opts = all but Uri-Host, Uri-Port, Proxy-Uri, Proxy-Scheme) and payload come out, the
-   request identifiers agree on both sides, and the Partial IV is now marked as seen.
-   ("partial": kid_context argument at its default; the ciphertext-length side condition is a property of the AEAD's expansion) *)
-Theorem C11_request_roundtrip_partial : forall E cA cB m cA' r' pm ridA w, ideal E -> matched cA cB ->
+(* a request protected by cA — with ANY kid_context argument: the context's own id context (default), none, or explicit bytes — and
+   unprotected by a context cB with matching keys/ids whose id_context equals the id context sent (if one is sent), while the Partial IV is
+   unseen in cB's replay window: original code, class-E options (inner_opts = all but Uri-Host, Uri-Port, Proxy-Uri, Proxy-Scheme) and
+   payload come out, the request identifiers agree on both sides, and the Partial IV is now marked as seen.
+   "partial": (1) `tag_bytes + 1 <= |ciphertext|` is a hypothesis on the AEAD's expansion (it cannot be an `ideal` clause: the symbolic
+   scheme's expansion depends on key/nonce/AAD lengths); (2) requests carrying Proxy-Uri are outside — as the code is they cannot be
+   protected at all, see C11_proxy_uri_request_refuted; (3) Observe of a request comes out only if the outer Observe is 0: a request
+   with Observe 1 loses it (open finding roundtrip-mismatch:observe:request-nonzero-dropped) — the statement says what the code does. *)
+Theorem C11_request_roundtrip_partial : forall E cA cB m kc cA' r' pm ridA w, ideal E -> matched_keys cA cB ->
+  match kc_sent cA kc with Some x => id_context cB = Some x | None => True end ->
   is_request (code m) = true ->
-  protect E cA m None KcDefault = (cA', r', Ok (pm, ridA)) ->
+  protect E cA m None kc = (cA', r', Ok (pm, ridA)) ->
   recipient_replay_window cB = Some w -> Proofs.C12.Inv w ->
   Verif.Model.C12.seen w (from_bytes_big (rid_piv ridA)) = false ->
   alg_tag_bytes (c_alg cB) + 1 <= blen (payload pm) ->
@@ -39,8 +44,15 @@ Theorem C11_request_roundtrip_partial : forall E cA cB m cA' r' pm ridA w, ideal
     u_observe um = match observe_value (opts pm) with Some 0 => observe_value (inner_opts m) | _ => None end /\
     rid_kid ridB = rid_kid ridA /\ rid_piv ridB = rid_piv ridA /\ can_reuse_nonce ridB = true /\
     exists w', recipient_replay_window cB' = Some w' /\ Verif.Model.C12.seen w' (from_bytes_big (rid_piv ridA)) = true.
-Proof. exact request_roundtrip. Qed.
+Proof. exact request_roundtrip_kc. Qed.
 Print Assumptions C11_request_roundtrip_partial.
+
+(* refuted for proxied requests, as the code is: protect raises IncompleteUrlError for every request carrying Proxy-Uri, before any state
+   change (open finding C11:protect-exception:IncompleteUrlError:proxy-uri; the splitting of oscore.py:1150-1158 never completes) *)
+Theorem C11_proxy_uri_request_refuted : forall E c m kc v, is_request (code m) = true -> get_opt OPT_PROXY_URI (opts m) = Some v ->
+  protect E c m None kc = (c, None, Raise IncompleteUrlError).
+Proof. exact proxy_uri_request_refuted. Qed.
+Print Assumptions C11_proxy_uri_request_refuted.
 
 (* Every response — the first one (reused nonce, empty option) or one with an own Partial IV, with or without responses_send_kid —
    unprotected by the requester with the identifiers of the request it answers, whatever outer Observe the server stack or an
@@ -90,7 +102,8 @@ Proof. exact notification_roundtrip. Qed.
 Print Assumptions C11_notification_roundtrip.
 
 (* ---------------------------------------------------------------- the outer message reveals nothing of the inner one *)
-(* only Uri-Host, Observe and the OSCORE option outside; Uri-Host is the message's own; fixed outer codes *)
+(* only Uri-Host, Observe and the OSCORE option outside; Uri-Host is the message's own; fixed outer codes.  Says nothing about proxied
+   requests (Uri-Port / Proxy-Scheme outside): for them the hypothesis is unsatisfiable, see C11_proxy_uri_request_refuted *)
 Theorem C11_outer_shape : forall E c m r kc c' r' pm rid',
   protect E c m r kc = (c', r', Ok (pm, rid')) ->
   Forall (fun o => fst o = OPT_URI_HOST \/ fst o = OPT_OBSERVE \/ fst o = OPT_OSCORE) (opts pm) /\
@@ -118,7 +131,8 @@ Print Assumptions C11_outer_reveals_nothing.
 
 (* ---------------------------------------------------------------- tampering, foreign keys, foreign requests *)
 (* whatever unprotect accepts is an honest encryption under the recipient key, the nonce and the AAD the recipient computed from the
-   option and its request identifiers: a ciphertext that is not one is rejected (this clause is the AEAD hypothesis itself) *)
+   option and its request identifiers: a ciphertext that is not one is rejected.  This restates the `ideal` hypothesis (dec_sound) at the level of
+   unprotect; it says nothing about a flipped bit as such — single-bit flips are exercised on the implementation only (tamper and *_bitflip streams) *)
 Theorem C11_unprotect_accepts_only_honest : forall E c pm r c' pt seqno rid', ideal E ->
   unprotect_verify E c pm r = Ok (c', pt, seqno, rid') ->
   exists nonce, payload pm = enc E (recipient_key c) nonce (build_encrypt0_structure (extract_external_aad (c_alg c) rid')) pt.
@@ -171,6 +185,35 @@ Theorem C11_response_not_replayable_against_other_request :
   rid_kid rR = rid_kid rS /\ rid_piv rR = rid_piv rS.
 Proof. exact response_not_replayable_against_other_request. Qed.
 Print Assumptions C11_response_not_replayable_against_other_request.
+
+(* the own Partial IV of a response is bound through the nonce: if a message carrying the ciphertext of a sender's own-PIV response is
+   accepted (same common IV and algorithm, admissible id lengths, the request's kid differs from the responder's id), its option carries a
+   Partial IV that is NUMERICALLY the sender's sequence number (equal after left-padding to 5 bytes; the encoding is not bound — open
+   finding piv-zero-padded), and the recipient's recipient id is the sender's id *)
+Theorem C11_response_own_piv_bound : forall E cS m rS kc cS' rS' pmS ridS cR pm rR cR' pt seqno ridR od u, ideal E ->
+  common_iv cR = common_iv cS -> c_alg cR = c_alg cS ->
+  blen (sender_id cS) <= alg_iv_bytes (c_alg cS) - NONCE_ID_OVERHEAD -> blen (recipient_id cR) <= alg_iv_bytes (c_alg cS) - NONCE_ID_OVERHEAD ->
+  admissible_rid cR rR -> rid_kid rR <> sender_id cS ->
+  is_response (code m) = true -> can_reuse_nonce rS = false ->
+  protect E cS m (Some rS) kc = (cS', rS', Ok (pmS, ridS)) ->
+  unprotect_verify E cR pm (Some rR) = Ok (cR', pt, seqno, ridR) -> payload pm = payload pmS ->
+  get_opt OPT_OSCORE (opts pm) = Some od -> uncompress od = Ok u ->
+  exists p, u_piv u = Some p /\ recipient_id cR = sender_id cS /\
+    zeros (NONCE_PIV_BYTES - blen p) ++ p = to_bytes_big_n (Z.to_nat PIV_FULL_BYTES) (sender_sequence_number cS) /\
+    seqno = Some (from_bytes_big p).
+Proof. exact response_own_piv_bound. Qed.
+Print Assumptions C11_response_own_piv_bound.
+
+(* the identifiers unprotect hands on for a request offer the request's nonce for reuse only after its Partial IV was found valid in an
+   initialised replay window, and the same call strikes that number out — at most one offer per number.  "partial": this model has
+   echo_recovery = None; the branch where a replay error is pending and can_reuse_nonce must be False (oscore.py:1300-1305, ReplayErrorWithEcho)
+   is driven on the implementation by the oracle-only *_echo streams (signature nonce-reuse-offered-for-replay) and belongs to C12's model *)
+Theorem C11_request_ids_reusable_only_if_validated_partial : forall E c pm c' pt seqno rid',
+  unprotect_verify E c pm None = Ok (c', pt, seqno, rid') ->
+  exists w n w', recipient_replay_window c = Some w /\ seqno = Some n /\ is_valid w n = Ok true /\
+    strike_out w n = Ok (w', tt) /\ recipient_replay_window c' = Some w' /\ can_reuse_nonce rid' = true.
+Proof. exact request_ids_reusable_only_if_validated. Qed.
+Print Assumptions C11_request_ids_reusable_only_if_validated_partial.
 
 (* Changes of the OSCORE option of a request, with the limits made explicit.  If a message carrying a sender's request ciphertext is
    accepted, then the Partial IV FIELD of its option is the sender's byte for byte (it is in the AAD), the Group flag is clear, and the
@@ -247,7 +290,7 @@ Definition ex_req : msg := {| code := 1; opts := [(3, [104; 111; 115; 116]); (6,
 (* the hypotheses of the round-trip, error-class and tamper theorems hold for a concrete pair of contexts and a concrete request;
    the computed round trip gives back code 1, Uri-Path and Content-Format (Uri-Host stays outside), Observe 0 and the payload *)
 Example C11_hypotheses_satisfiable :
-  matched ex_A ex_B /\ admissible_ctx ex_B /\ small_alg ex_alg /\ is_request (code ex_req) = true /\
+  matched_keys ex_A ex_B /\ matched ex_A ex_B /\ admissible_ctx ex_B /\ small_alg ex_alg /\ is_request (code ex_req) = true /\
   exists cA' pm ridA cB' um ridB,
     protect sym_aead ex_A ex_req None KcDefault = (cA', None, Ok (pm, ridA)) /\
     code pm = CODE_FETCH /\ map fst (opts pm) = [OPT_URI_HOST; OPT_OBSERVE; OPT_OSCORE] /\ get_opt OPT_OSCORE (opts pm) = Some [26; 255; 255; 2; 55; 203; 1] /\
@@ -261,6 +304,7 @@ Example C11_hypotheses_satisfiable :
     (* Group flag set by a bit flip: DecodeError *)
     snd (unprotect sym_aead ex_B (apply_tamper (TOptBit 0 5) pm) None) = Raise DecodeError.
 Proof.
+  split. { unfold matched_keys. repeat split; reflexivity. }
   split. { unfold matched. repeat split; reflexivity. }
   split. { unfold admissible_ctx, Proofs.C12.Inv. cbn. repeat split; lia. }
   split. { unfold small_alg. cbn. lia. }
